@@ -16,6 +16,8 @@ from .solver import Solver, run_file
 
 VERIF = os.path.dirname(os.path.dirname(os.path.abspath(__file__)))
 REPO = os.environ.get('VERIF_REPO', '/repo')
+# evidence/ and replays/ go under VERIF unless a scratch run redirects them
+OUT = os.environ.get('VERIF_OUT', VERIF)
 
 
 # --------------------------------------------------------------------------
@@ -239,7 +241,7 @@ def run_check(H, tier, seed, workers=None):
         groups.setdefault((c['claim'], c['sig']), []).append(c)
     violations = []
     known_hits = []
-    replay_dir = os.path.join(VERIF, 'replays')
+    replay_dir = os.path.join(OUT, 'replays')
     for (claim, sig), items in sorted(groups.items()):
         reproduced = None
         for c in items[:4]:
@@ -355,8 +357,8 @@ def run_check(H, tier, seed, workers=None):
             evidence['coverage'].update(extra(tier))
         except Exception as e:   # pragma: no cover
             harness_problems.append('extra evidence failed: %s' % e)
-    os.makedirs(os.path.join(VERIF, 'evidence'), exist_ok=True)
-    with open(os.path.join(VERIF, 'evidence', '%s.json' % prop), 'w') as f:
+    os.makedirs(os.path.join(OUT, 'evidence'), exist_ok=True)
+    with open(os.path.join(OUT, 'evidence', '%s.json' % prop), 'w') as f:
         json.dump(evidence, f, indent=1, default=str)
 
     # ---- report
